@@ -369,3 +369,97 @@ def transform_tree_hoist(root):
                 open(p, "w", encoding="utf-8").write(ast.unparse(tree) + "\n")
                 n += 1
     return n
+
+
+SDE_PROTOCOL = {"f", "g", "h", "f_and_g", "g_prod", "f_and_g_prod", "prod", "g_prod_and_gdg_prod", "dg_ga_jvp_column_sum",
+                "forward", "backward", "apply", "__call__", "__init__", "save_for_backward"}
+
+
+def _signatures(root):
+    """name -> (param names without self/cls, is_method) for every function whose name has one consistent signature
+    in the package and takes no *args / **kwargs."""
+    sigs = {}
+    bad = set()
+    for dp, dn, fn in os.walk(os.path.join(root, "torchsde")):
+        for f in fn:
+            if not f.endswith(".py"):
+                continue
+            tree = ast.parse(open(os.path.join(dp, f), encoding="utf-8").read())
+
+            def visit(body, in_class):
+                for st in body:
+                    if isinstance(st, ast.ClassDef):
+                        visit(st.body, True)
+                    elif isinstance(st, (ast.FunctionDef, ast.AsyncFunctionDef)):
+                        a = st.args
+                        static = any(isinstance(d, ast.Name) and d.id == "staticmethod" for d in st.decorator_list)
+                        if a.vararg or a.kwarg or a.posonlyargs or a.kwonlyargs or st.name in SDE_PROTOCOL or \
+                                any(not (isinstance(d, ast.Name) and d.id in ("staticmethod", "classmethod", "abc.abstractmethod"))
+                                    and not (isinstance(d, ast.Attribute)) for d in st.decorator_list):
+                            bad.add(st.name)
+                            continue
+                        params = [x.arg for x in a.args]
+                        if in_class and not static:
+                            params = params[1:]
+                        sig = (tuple(params), in_class)
+                        if st.name in sigs and sigs[st.name] != sig:
+                            bad.add(st.name)
+                        sigs[st.name] = sig
+            visit(tree.body, False)
+    return {k: v for k, v in sigs.items() if k not in bad}
+
+
+class _ArgStyle(ast.NodeTransformer):
+    """Seventh twin: calls of the package's own functions switch argument style -- all-positional calls become keyword
+    calls, keyword calls become positional (where the keywords are a prefix-complete set of the parameters).  Only
+    callees resolved by name to one consistent signature inside the package: `name(...)`, `<module alias>.name(...)`,
+    `self.name(...)`; never the user-facing SDE / Brownian protocol."""
+
+    def __init__(self, sigs, module_aliases):
+        self.sigs, self.aliases = sigs, module_aliases
+
+    def visit_Call(self, node):
+        self.generic_visit(node)
+        f = node.func
+        name, method = None, None
+        if isinstance(f, ast.Name):
+            name, method = f.id, False
+        elif isinstance(f, ast.Attribute) and isinstance(f.value, ast.Name):
+            if f.value.id == "self":
+                name, method = f.attr, True
+            elif f.value.id in self.aliases:
+                name, method = f.attr, False
+        if name is None or name not in self.sigs or self.sigs[name][1] != method:
+            return node
+        params = self.sigs[name][0]
+        if any(isinstance(a, ast.Starred) for a in node.args) or any(k.arg is None for k in node.keywords):
+            return node
+        if node.args and not node.keywords and len(node.args) <= len(params):
+            return ast.Call(func=f, args=[], keywords=[ast.keyword(arg=p, value=a) for p, a in zip(params, node.args)])
+        if node.keywords:
+            given = {k.arg: k.value for k in node.keywords}
+            rest = list(params[len(node.args):len(node.args) + len(given)])
+            if set(rest) == set(given):
+                return ast.Call(func=f, args=list(node.args) + [given[p] for p in rest], keywords=[])
+        return node
+
+
+def transform_tree_argstyle(root):
+    sigs = _signatures(root)
+    n = 0
+    for dp, dn, fn in os.walk(os.path.join(root, "torchsde")):
+        for f in fn:
+            if f.endswith(".py"):
+                p = os.path.join(dp, f)
+                tree = ast.parse(open(p, encoding="utf-8").read())
+                aliases = set()
+                for st in tree.body:
+                    if isinstance(st, ast.ImportFrom) and st.level > 0:
+                        for al in st.names:
+                            aliases.add(al.asname or al.name)
+                # a from-import may bring in a function rather than a module: then `alias.name(...)` does not occur
+                tree = _ArgStyle(sigs, aliases).visit(tree)
+                ast.fix_missing_locations(tree)
+                open(p, "w", encoding="utf-8").write(ast.unparse(tree) + "\n")
+                n += 1
+    return n
